@@ -9,7 +9,7 @@ def clauses(case, d):
     """walk the real trace; every recur of a leaf announces the ops of its next step, every op that returned left a
     `doers` snapshot.  Reference: an ordered set per scheduler (added and not removed, insertion order)."""
     bad = []
-    _, tock, start, limit, pool, specs = case
+    _, tock, start, limit, pool, specs = case[:6]
     spec, par, pools, kids = S.spec_index(case)
     desc = S.descendants(case)
     ref = {sid: list(k) for sid, k in kids.items()}
@@ -151,7 +151,7 @@ class C06(S.SchedCheck):
                  "differential run against hio.base.doing; ordered-set reference oracle on the real trace")
     level_text = ('Lean theorems for every state of a scheduler in mid cycle: doers_list_exact (doers after any op sequence = fold of the ordered-set spec, every snapshot equal to the spec), extend_spec_meaning, doers_list_exact_raised (failing enter inside extend: exactly the doers entered before it are listed), extend_present_noop, extend_queues_right_of_marker + extend_enters_now + cycle_resumes_only_left_of_marker + extend_runs_next_cycle (new doers are entered at the current tyme, queued right of the marker, not resumed in this cycle), remove_closes_before_return + close_is_cease_exit + removed_never_recurs + remove_doers + cycle_skips_removed, self_remove_no_lifecycle_event + self_remove_keeps_running. That the new deed IS resumed in the next cycle: due_head_recurs, due_deed_recurs, extended_doer_recurs_next_cycle (any later cycle with now <= now2, unless the cycle raised or the deed was removed in it) and extended_doer_recurs_next_doist_cycle (at now + tock, under the LawfulTyme laws of HioModel/Sched/TimeDefs.lean and 0 <= tock; Float satisfying them is an assumption). F05/F06/F04 were repaired on fix/sched.')
     level_note = ('Trusted: as C01.  The ordered-set reference oracle replays the ops announced by each recur against the snapshots the real scheduler left.')
-    profiles = ("ops", "ops", "ops", "mixed")
+    profiles = ("ops", "ops", "ops", "mixed", "lastop")
     rule = ("as C01 with the op-heavy profile: extend/remove issued from inside running doers on their own scheduler (Doist, DoDoer, DoDoer(always)), targets = self, earlier/later siblings, "
             "completed, absent, pool doers, duplicates, out-of-range pool index, several ops per step, failing enter inside extend.  non-trivial = at least one op returned and >=12 events; distinct by request line")
 
